@@ -126,7 +126,11 @@ def rule_nested_prune(ctx):
     ctx.floor("replacing stages that embed the matched node", n, 2)
 
 
+from .c11_wiring import rule_cast_extract, rule_wiring  # noqa: E402
+
 RULES = [
+    ("C11.d", rule_wiring, ("quick", "thorough")),
+    ("C11.d2", rule_cast_extract, ("quick", "thorough")),
     ("C11.a", rule_order, ("quick", "thorough")),
     ("C11.b", rule_slot_agreement, ("quick", "thorough")),
     ("C11.c", rule_nested_prune, ("quick", "thorough")),
